@@ -2,7 +2,9 @@ package eng
 
 import (
 	"fmt"
+	"os"
 	"reflect"
+	"runtime/debug"
 	"sort"
 	"strings"
 	"time"
@@ -215,6 +217,9 @@ func runOnOpt(schema z.ZogSchema, c *Case, rec *Recorder, data any, hook bool) (
 	SetD(c.Schema, dest.Elem(), c.Dest)
 	defer func() {
 		if r := recover(); r != nil {
+			if os.Getenv("VERIF_PANIC") != "" {
+				fmt.Fprintf(os.Stderr, "panic: %v\n%s\n", r, debug.Stack())
+			}
 			res = &Result{Panic: fmt.Sprint(r), Events: rec.Events, Order: rec.Order}
 		}
 	}()
